@@ -587,6 +587,8 @@ func wrapCase(c *ev.Case) {
 }
 
 // honestCase: really performs the pushes and pops. Thorough: more than 2^32 pairs.
+var seekUsable, _ = ringseek.Usable(2)
+
 func honestCase(c *ev.Case) {
 	caps := []int{2, 4, 8, 2, 4, 8}
 	req := caps[c.Index%len(caps)]
@@ -594,7 +596,9 @@ func honestCase(c *ev.Case) {
 	cp := r.Cap()
 	fill := (c.Index * 3) % cp // standing fill level (never full, so every push must succeed)
 	pairs := uint64(1) << 22
-	if c.Thorough() {
+	if c.Thorough() || !seekUsable {
+		// without a usable seek the honest run is the only way to the counter wrap: the
+		// quick tier then pays the two minutes rather than drop the clause
 		pairs = uint64(1)<<32 + uint64(1)<<20
 	}
 	c.Logf("honest run: cap %d standing fill %d, %d push/pop pairs", cp, fill, pairs)
@@ -688,15 +692,15 @@ func main() {
 	r.Require("syncring_sequences", 10000)
 	r.Require("quiet_windows_closed", 3000)
 	r.Require("bigcap_cases", int64(len(bigCaps)))
-	if r.Thorough() {
+	if r.Thorough() || !seekUsable {
 		r.Require("honest_wraps", 6)
 	}
 	if ok, why := ringseek.Usable(2); ok {
 		r.Require("wrap_crossings_2^32", 5000)
 	} else if !r.IsChild() {
 		// representation changed: not an alarm; the quick tier then does not cover the wrap clause
-		fmt.Println("note: counter seek unusable (" + why + "); the 2^32 wrap is only covered by the thorough tier's honest runs")
-		r.Add("wrap_clause_not_covered_by_seek", 1)
+		fmt.Println("note: counter seek unusable (" + why + "); the 2^32 wrap is covered by honest runs of more than 2^32 push/pop pairs instead (about two minutes)")
+		r.Add("wrap_clause_covered_by_honest_runs_only", 1)
 	}
 	r.Finish()
 }
